@@ -327,8 +327,15 @@ func parseDirectives(path string, src []byte) ([]*entrySpec, string) {
 			s.reach = append(s.reach, fs[1:]...)
 		}
 	}
+	funcDocs := map[*ast.CommentGroup]bool{}
+	for _, d := range f.Decls {
+		if fd, ok := d.(*ast.FuncDecl); ok && fd.Doc != nil {
+			funcDocs[fd.Doc] = true
+		}
+	}
 	for _, cg := range f.Comments {
-		if cg.End() < f.Package {
+		// directives outside function doc comments apply to every entry in the file
+		if !funcDocs[cg] {
 			for _, c := range cg.List {
 				if strings.HasPrefix(c.Text, "//zz:") {
 					apply(fileSpec, c.Text)
